@@ -105,7 +105,7 @@ def cases(ctx):
                "app_id": rng.choice([0, 1, 255, 256, 65535, rng.randrange(65536)]), "instrs": ins}
 
 
-def _roundtrip(ctx, case, flav, version, app_id, instrs, fobj=None):
+def _roundtrip(ctx, case, flav, version, app_id, instrs, fobj=None, mutate=None):
     """Returns None if fine, else a description of the discrepancy."""
     from netqasm.lang.parsing import deserialize
     from netqasm.lang.subroutine import Subroutine
@@ -132,7 +132,53 @@ def _roundtrip(ctx, case, flav, version, app_id, instrs, fobj=None):
             return f"instr {i}: built from {instrs[i]} but describes as {codec.describe_instr(b)}"
     if bytes(dec) != raw:
         return "re-encoding the decoded subroutine gives different bytes"
+    # long-lived Deserializer objects of all flavours coexist in a controller process
+    ctx.count("long_lived_deserializer_decodes")
+    from netqasm.lang.parsing.binary import Deserializer
+    Deserializer(codec.flavour_obj({"vanilla": "nv", "nv": "vanilla", "reids": "vanilla"}[flav]))  # another controller starts up
+    dd = _deserializers()[flav].deserialize_subroutine(raw)
+    if [codec.describe_instr(i) for i in dd.instructions] != [[m, v] for m, v in instrs] or \
+            any(type(a) is not type(b) for a, b in zip(objs, dd.instructions)):
+        bad = next((f"{codec.describe_instr(a)} decoded as {codec.describe_instr(b)} ({type(b).__name__})"
+                    for a, b in zip(objs, dd.instructions) if type(a) is not type(b) or codec.describe_instr(a) != codec.describe_instr(b)), "length")
+        return f"a long-lived Deserializer({flav}) decodes differently from deserialize(): {bad}"
+    # the same Subroutine object, changed after it was encoded once, must encode its current content
+    if objs and mutate is not None:
+        new_app, new_instrs = mutate
+        how = ctx.rng.choice(["setter", "instantiate"])
+        if how == "setter":
+            sub.app_id = new_app
+        else:
+            sub.instantiate(new_app, {})
+        nobjs = [codec.mk_instr(fobj, flav, m, v) for m, v in new_instrs]
+        edit = ctx.rng.choice(["append", "replace-in-place", "assign-list"])
+        if edit == "append":
+            sub.instructions.append(nobjs[0])
+            want = list(sub.instructions)
+        elif edit == "replace-in-place":
+            sub.instructions[0] = nobjs[0]
+            want = list(sub.instructions)
+        else:
+            sub.instructions = nobjs
+            want = nobjs
+        ctx.count("reencode_after_update")
+        dec2 = deserialize(bytes(sub), flavour=fobj)
+        if dec2.app_id != new_app:
+            return f"after the app id was changed to {new_app} ({how}) the encoded bytes carry app id {dec2.app_id}"
+        if [codec.describe_instr(i) for i in dec2.instructions] != [codec.describe_instr(i) for i in want]:
+            return f"after the instruction list was changed ({edit}) the encoded bytes still describe the old instructions"
     return None
+
+
+_DESER = {}
+
+
+def _deserializers():
+    from netqasm.lang.parsing.binary import Deserializer
+    if not _DESER:
+        for n in ("vanilla", "nv", "reids"):
+            _DESER[n] = Deserializer(codec.flavour_obj(n))
+    return _DESER
 
 
 def run_case(ctx, case):
@@ -196,7 +242,12 @@ def run_case(ctx, case):
         ctx.case(case, nontrivial=bool(kinds))
         return
     if kind == "single":
-        err = _roundtrip(ctx, case, flav, case["version"], case["app_id"], case["instrs"])
+        mut = None
+        if case["instrs"]:
+            names = sorted(isa.TABLE[flav])
+            m2 = ctx.rng.choice(names)
+            mut = ((case["app_id"] + 1 + ctx.rng.randrange(100)) % 65536, [[m2, codec.rand_values(ctx.rng, isa.TABLE[flav][m2][1])]])
+        err = _roundtrip(ctx, case, flav, case["version"], case["app_id"], case["instrs"], mutate=mut)
         if err:
             ctx.fail(case, f"{flav}: {err}")
         ctx.case(case, nontrivial=any(v for _, v in case["instrs"]))
